@@ -293,7 +293,7 @@ Node initial_node() {
   Node n;
   for (int i = 0; i < 2; i++) {
     n.r[i].box = DOM->make_top();
-    if (ROOT == 0) { // regions declared: the usual start of a function body
+    if (ROOT == 0 || ROOT == 3) { // regions declared: the usual start of a function body
       n.r[i].box->apply(reg_init(VR1), nullptr);
       n.r[i].box->apply(reg_init(VRR), nullptr);
       n.r[i].box->apply(reg_init(VRB), nullptr);
@@ -324,7 +324,7 @@ std::string path_str(const std::vector<int> &p) {
   return s;
 }
 std::string path_names(const std::vector<int> &p) {
-  std::string s = ROOT == 0 ? "init(R1); init(RR); init(RB)" : (ROOT == 1 ? "(no region_init)" : "init(RB); p:=make_ref(RB,site5); q:=make_ref(RB,site6)");
+  std::string s = ROOT == 0 ? "init(R1); init(RR); init(RB)" : (ROOT == 1 ? "(no region_init)" : (ROOT == 2 ? "init(RB); p:=make_ref(RB,site5); q:=make_ref(RB,site6)" : "init(R1); init(RR); init(RB); save; p:=make_ref(R1,site1); q:=gep(p,R1,0); store(p,R1,5); join(saved); save"));
   for (size_t i = 0; i < p.size(); i++) s += " ; " + ALPHA[p[i]].name;
   return s;
 }
@@ -470,6 +470,19 @@ Status apply_op(const ROp &a, Node &n, const std::vector<int> &path) {
   }
 }
 
+// root 3: "maybe allocated": the join of the declared-regions state with the state after
+// p:=make_ref(R1); q:=gep(p,R1,0); store(p,R1,5)  (the reference counter of R1 is then zero-or-one)
+Node root_node() {
+  Node n = initial_node();
+  if (ROOT != 3) return n;
+  const char *prefix[] = {"save", "p:=make_ref(R1,site1)", "q:=gep(p,R1,0)", "store(p,R1,5)", "join(saved)", "save"};
+  std::vector<int> path;
+  for (auto nm : prefix)
+    for (int i = 0; i < (int)ALPHA.size(); i++)
+      if (ALPHA[i].name == nm) { apply_op(ALPHA[i], n, path); break; }
+  return n;
+}
+
 std::unordered_map<uint64_t, int> seen;
 uint64_t state_key(const Node &n) {
   std::string s;
@@ -538,7 +551,7 @@ int main(int argc, char **argv) {
     ROOT = atoi(f[3].c_str());
     std::vector<int> path, p;
     for (auto &t : vp::split(f[4], '.')) path.push_back(atoi(t.c_str()));
-    Node n = initial_node();
+    Node n = root_node();
     for (int oi : path) {
       p.push_back(oi);
       if (apply_op(ALPHA[oi], n, p) != ST_OK) break;
@@ -561,9 +574,10 @@ int main(int argc, char **argv) {
       if (cut) break;
       apply_config(cfg);
       CFGNAME = cfg.name;
-      for (ROOT = 0; ROOT < 3 && !cut; ROOT++)
+      for (ROOT = 0; ROOT < 4 && !cut; ROOT++)
         for (int phase = 0; phase < 2 && !cut; phase++) {
           MAXD = phase == 0 ? depth_ext : depth_core;
+          if (ROOT == 3 && phase == 0) continue; // root 3: core alphabet only
           if (ROOT == 1) MAXD = std::min(MAXD, 3); // without region_init everything is unknown: shallow exploration
           if (ROOT == 2 && phase == 0) continue;   // root 2 has a single alphabet
           if (ROOT == 2) MAXD = depth_core + 1;
@@ -575,7 +589,7 @@ int main(int argc, char **argv) {
               if (!vp::mine(unit++)) continue;
               if (vp::past_deadline()) { vp::incomplete(DOMNAME + " " + CFGNAME + " phase " + std::to_string(phase)); cut = true; break; }
               seen.clear();
-              Node n = initial_node();
+              Node n = root_node();
               std::vector<int> path = {o1};
               vp::set_case("h|" + DOMNAME + "|" + CFGNAME + "|" + std::to_string(ROOT) + "|" + path_str(path));
               if (apply_op(ALPHA[o1], n, path) != ST_OK) continue;
